@@ -2,12 +2,12 @@
 //! (mirrors coq/Body/Model.v `run`):
 //!
 //! `0 op*` — the body protocol on 4 message slots, through the public `Message`
-//!   API of the real crate.  Tags 1..=17 name Rust types (see `dispatch!`).
+//!   API of the real crate.  Tags 1..=23 name Rust types (see `dispatch!`).
 //!   op = 1 s mode t v L (slot := new message with content)   | 12 s (new message without content)
 //!      | 2 s mode t v L (set_content & co. on the message)    | 3 s t (can_cast) | 4 s t (try_cast)
 //!      | 5 s t (try_content) | 6 s d (try_clone into d) | 7 s d (clone into d) | 8 s (drop)
 //!      | 9 s (length) | 10 k (drop k-th cast-out value) | 11 s (observe)
-//!   (t is mapped to tag 1 + t % 17; mode 0 new, 1 non_clonable, 2 non_debugable, 3 new_with_len L).
+//!   (t is mapped to tag 1 + t % 23; mode 0 new, 1 non_clonable, 2 non_debugable, 3 new_with_len L).
 //!   Every record is followed by the sorted list (length-prefixed) of serials whose
 //!   destructor ran during the operation (0 for the zero-sized type Z).
 //!   Records: 0 (empty slot) | 1 ser len | 2 b | 3 val ser hid (cast ok) | 4 obs (cast failed,
@@ -18,7 +18,7 @@
 //! `1 decl` — `des_macros_core::message_body::derive_impl` on a generated declaration; prints the
 //!   canonical form of its token output (coq/Body/Derive.v `enc_output`).
 //!
-//! `2 fam k l*` — `byte_len()` of a value of one of six `#[derive(MessageBody)]` types compiled in
+//! `2 fam k l*` — `byte_len()` of a value of one of eight `#[derive(MessageBody)]` types compiled in
 //!   (record `15 len`).
 //!
 //! `3 fam mode n*` — a value of the (fam % 19)-th of a family of std types (arrays, collections, maps,
@@ -140,7 +140,7 @@ fn take_log() -> Vec<u64> {
 macro_rules! counted {
     ($name:ident, $len:expr) => {
         #[derive(Debug)]
-        struct $name {
+        pub struct $name {
             val: u32,
             ser: u32,
         }
@@ -194,18 +194,18 @@ impl MessageBody for Z {
 #[derive(Debug, Clone, MessageBody)]
 struct DS {
     tok: Tok,
-    n: u64,
+    _n: u64,
     s: String,
 }
 
 #[derive(Debug, Clone, MessageBody)]
 enum DE {
     A(Tok),
-    B { t: Tok, x: u16 },
+    B { t: Tok, _x: u16 },
 }
 
 // ------------------------------------------------------------------ the tag universe
-const NT: u64 = 17;
+const NT: u64 = 23;
 const BAD: u64 = 999_999;
 const ALPHA: &str = "abcdefghijklmnopqrstuvwxyz";
 
@@ -311,10 +311,10 @@ clonable_tag!(
     DS,
     |v| {
         let w = (v % P32) as u32;
-        DS { tok: Tok::new(w), n: u64::from(w) + 1, s: "x".repeat((w % 7) as usize) }
+        DS { tok: Tok::new(w), _n: u64::from(w) + 1, s: "x".repeat((w % 7) as usize) }
     },
     |x| {
-        let ok = x.n == u64::from(x.tok.val) + 1 && x.s == "x".repeat((x.tok.val % 7) as usize);
+        let ok = x._n == u64::from(x.tok.val) + 1 && x.s == "x".repeat((x.tok.val % 7) as usize);
         (if ok { u64::from(x.tok.val) } else { BAD }, u64::from(x.tok.ser))
     }
 );
@@ -325,12 +325,12 @@ clonable_tag!(
         if w % 2 == 0 {
             DE::A(Tok::new(w))
         } else {
-            DE::B { t: Tok::new(w), x: 7 }
+            DE::B { t: Tok::new(w), _x: 7 }
         }
     },
     |x| match x {
         DE::A(t) if t.val % 2 == 0 => (u64::from(t.val), u64::from(t.ser)),
-        DE::B { t, x: 7 } if t.val % 2 == 1 => (u64::from(t.val), u64::from(t.ser)),
+        DE::B { t, _x: 7 } if t.val % 2 == 1 => (u64::from(t.val), u64::from(t.ser)),
         DE::A(t) | DE::B { t, .. } => (BAD, u64::from(t.ser)),
     }
 );
@@ -349,6 +349,98 @@ impl TagT for NoClone {
         msg.set_content_non_clonable(self);
         d
     }
+}
+
+// ---- distinct types that a comparison by name or by layout would confuse (all { val: u32, ser: u32 } + Drop)
+/// names a type declared inside a function body from the outside
+trait Pick {
+    type T: TagT;
+}
+struct PickA;
+struct PickB;
+type ReadingA = <PickA as Pick>::T;
+type ReadingB = <PickB as Pick>::T;
+
+/// Two different types, both called `Reading`, declared in sibling blocks of one function: their
+/// `std::any::type_name` is identical, their `TypeId` is not.
+#[allow(dead_code)]
+fn same_named_types() {
+    {
+        counted!(Reading, |_| 3);
+        impl Clone for Reading {
+            fn clone(&self) -> Self {
+                Reading { val: self.val, ser: draw_serial() }
+            }
+        }
+        clonable_tag!(Reading, |v| Reading::new((v % P32) as u32), |x| (u64::from(x.val), u64::from(x.ser)));
+        impl Pick for PickA {
+            type T = Reading;
+        }
+    }
+    {
+        counted!(Reading, |_| 3);
+        impl Clone for Reading {
+            fn clone(&self) -> Self {
+                Reading { val: self.val, ser: draw_serial() }
+            }
+        }
+        clonable_tag!(Reading, |v| Reading::new((v % P32) as u32), |x| (u64::from(x.val), u64::from(x.ser)));
+        impl Pick for PickB {
+            type T = Reading;
+        }
+    }
+}
+
+/// one generic type at two arguments: the names differ in the generic argument only
+#[derive(Debug)]
+struct Gen<T: 'static> {
+    val: u32,
+    ser: u32,
+    _p: std::marker::PhantomData<T>,
+}
+impl<T> Gen<T> {
+    fn new(val: u32) -> Self {
+        Gen { val, ser: draw_serial(), _p: std::marker::PhantomData }
+    }
+}
+impl<T> Clone for Gen<T> {
+    fn clone(&self) -> Self {
+        Gen { val: self.val, ser: draw_serial(), _p: std::marker::PhantomData }
+    }
+}
+impl<T> Drop for Gen<T> {
+    fn drop(&mut self) {
+        log_drop(u64::from(self.ser));
+    }
+}
+impl<T> MessageBody for Gen<T> {
+    fn byte_len(&self) -> usize {
+        6
+    }
+}
+clonable_tag!(Gen<u32>, |v| Gen::new((v % P32) as u32), |x| (u64::from(x.val), u64::from(x.ser)));
+clonable_tag!(Gen<i32>, |v| Gen::new((v % P32) as u32), |x| (u64::from(x.val), u64::from(x.ser)));
+
+/// the same item name in two modules: the paths differ in one inner segment only
+mod left {
+    use super::*;
+    counted!(Sample, |_| 1);
+    impl Clone for Sample {
+        fn clone(&self) -> Self {
+            Sample { val: self.val, ser: draw_serial() }
+        }
+    }
+    clonable_tag!(Sample, |v| Sample::new((v % P32) as u32), |x| (u64::from(x.val), u64::from(x.ser)));
+}
+mod right {
+    use super::*;
+    counted!(Sample, |_| 1);
+    impl Clone for Sample {
+        fn clone(&self) -> Self {
+            Sample { val: self.val, ser: draw_serial() }
+        }
+    }
+    clonable_tag!(Sample, |v| Sample::new((v % P32) as u32), |x| (u64::from(x.val), u64::from(x.ser)));
 }
 
 macro_rules! dispatch {
@@ -370,6 +462,12 @@ macro_rules! dispatch {
             14 => $f::<Box<Tok>>($($args),*),
             15 => $f::<DS>($($args),*),
             16 => $f::<DE>($($args),*),
+            18 => $f::<ReadingA>($($args),*),
+            19 => $f::<ReadingB>($($args),*),
+            20 => $f::<Gen<u32>>($($args),*),
+            21 => $f::<Gen<i32>>($($args),*),
+            22 => $f::<left::Sample>($($args),*),
+            23 => $f::<right::Sample>($($args),*),
             _ => $f::<()>($($args),*),
         }
     };
@@ -649,7 +747,7 @@ fn dec_fields(r: &mut Rd) -> Fs {
 fn fields_src(f: &Fs) -> String {
     match f {
         Fs::Named(ps) => {
-            let items: Vec<String> = ps.iter().map(|(n, t)| format!("f{}: {}", n, TYPES[*t as usize])).collect();
+            let items: Vec<String> = ps.iter().map(|(n, t)| format!("{}: {}", field_name(*n), TYPES[*t as usize])).collect();
             format!("{{ {} }}", items.join(", "))
         }
         Fs::Unnamed(ts) => {
@@ -703,6 +801,36 @@ fn norm_tokens<T: quote::ToTokens>(t: &T) -> String {
     t.to_token_stream().to_string()
 }
 
+/// The identifier of field number n: the derive macro sees identifiers, so their shape is a dimension —
+/// plain, leading underscore, raw identifier, underscore + digits, and two raw keywords.
+fn field_name(n: u64) -> String {
+    match n {
+        2 => "r#type".to_string(),
+        6 => "r#match".to_string(),
+        _ => match n % 4 {
+            0 => format!("f{n}"),
+            1 => format!("_f{n}"),
+            2 => format!("r#f{n}"),
+            _ => format!("_{n}"),
+        },
+    }
+}
+fn field_num(s: &str) -> u64 {
+    let n = match s {
+        "r#type" => 2,
+        "r#match" => 6,
+        _ => {
+            let digits = s.trim_start_matches(|c: char| !c.is_ascii_digit());
+            digits.parse().unwrap_or(BAD)
+        }
+    };
+    if n != BAD && field_name(n) == s {
+        n
+    } else {
+        BAD
+    }
+}
+
 fn ident_num(s: &str, prefix: &str) -> u64 {
     s.strip_prefix(prefix).and_then(|x| x.parse().ok()).unwrap_or(BAD)
 }
@@ -737,17 +865,17 @@ fn canon_term(e: &syn::Expr, out: &mut Vec<u64>) {
     match &call.args[0] {
         syn::Expr::Reference(r) if r.mutability.is_none() => match &*r.expr {
             syn::Expr::Field(f) if norm_tokens(&*f.base) == "self" => match &f.member {
-                syn::Member::Named(id) => out.extend([1, ident_num(&id.to_string(), "f")]),
+                syn::Member::Named(id) => out.extend([1, field_num(&id.to_string())]),
                 syn::Member::Unnamed(ix) => out.extend([2, u64::from(ix.index)]),
             },
             _ => out.extend([9, 0]),
         },
         syn::Expr::Path(p) if p.path.get_ident().is_some() => {
             let s = p.path.get_ident().unwrap().to_string();
-            if s.starts_with('f') {
-                out.extend([3, ident_num(&s, "f")]);
-            } else {
+            if s.starts_with('v') {
                 out.extend([4, ident_num(&s, "v")]);
+            } else {
+                out.extend([3, field_num(&s)]);
             }
         }
         _ => out.extend([9, 0]),
@@ -794,7 +922,7 @@ fn canon_pat(p: &syn::Pat, dname: &str, out: &mut Vec<u64>) {
                 let shorthand_ref = f.colon_token.is_none()
                     && matches!(&*f.pat, syn::Pat::Ident(i) if i.by_ref.is_some() && i.mutability.is_none());
                 match (&f.member, shorthand_ref) {
-                    (syn::Member::Named(id), true) => out.push(ident_num(&id.to_string(), "f")),
+                    (syn::Member::Named(id), true) => out.push(field_num(&id.to_string())),
                     _ => out.push(BAD),
                 }
             }
@@ -912,6 +1040,20 @@ struct S5 {
     v: Vec<L>,
 }
 
+#[derive(MessageBody)]
+struct S6 {
+    _pad: L,
+    r#type: L,
+    x: L,
+    _tag: L,
+}
+#[derive(MessageBody)]
+enum E7 {
+    A { _a: L, b: L },
+    B(L),
+    C { r#match: L, _z: L },
+}
+
 fn e3(k: u64, a: usize, b: usize, c: usize) -> E3 {
     match k % 4 {
         0 => E3::A,
@@ -927,12 +1069,19 @@ fn run_family(nums: &[u64]) -> Vec<u64> {
     }
     let (fam, k) = (nums[0], nums[1]);
     let l = |i: usize| (nums.get(2 + i).copied().unwrap_or(0) % 1000) as usize;
-    let len = match fam % 6 {
+    let len = match fam % 8 {
         0 => S0.byte_len(),
         1 => S1 { a: L(l(0)), b: L(l(1)), c: L(l(2)) }.byte_len(),
         2 => S2(L(l(0)), L(l(1))).byte_len(),
         3 => e3(k, l(0), l(1), l(2)).byte_len(),
         4 => S4::<L> { a: L(l(0)), b: L(l(1)) }.byte_len(),
+        6 => S6 { _pad: L(l(0)), r#type: L(l(1)), x: L(l(2)), _tag: L(l(3)) }.byte_len(),
+        7 => match k % 3 {
+            0 => E7::A { _a: L(l(0)), b: L(l(1)) },
+            1 => E7::B(L(l(0))),
+            _ => E7::C { r#match: L(l(0)), _z: L(l(1)) },
+        }
+        .byte_len(),
         _ => S5 {
             inner: S1 { a: L(l(0)), b: L(l(1)), c: L(l(2)) },
             e: e3(k, l(3), l(4), l(5)),
@@ -954,6 +1103,7 @@ struct DA {
     arr: [String; 2],
     tag: u16,
     opt: Option<[u8; 3]>,
+    _pad: u32,
 }
 
 static STATIC_OPTS: [Option<u32>; 7] = [None, Some(1), Some(2), None, Some(4), None, Some(6)];
@@ -1004,7 +1154,7 @@ fn run_std(nums: &[u64]) -> Vec<u64> {
         6 => std_record::<Result<u32, String>>(if l(0) % 2 == 0 { Ok(5) } else { Err(s(l(1))) }, mode),
         7 => std_record::<Box<[Option<u64>; 2]>>(Box::new([odd(l(0)).then_some(1), odd(l(1)).then_some(2)]), mode),
         8 => std_record::<DA>(
-            DA { arr: [s(l(0)), s(l(1))], tag: 9, opt: odd(l(2)).then_some([1, 2, 3]) },
+            DA { arr: [s(l(0)), s(l(1))], tag: 9, opt: odd(l(2)).then_some([1, 2, 3]), _pad: 5 },
             mode,
         ),
         9 => std_record::<LinkedList<(u16, Option<String>)>>(
